@@ -61,37 +61,65 @@ def maxAdmissible (cfg : Cfg) (s : State) (ctx : Option Id) : Option Nat :=
 
 def ids (s : State) : List Id := List.range s.heap.length
 
+/-- `P` holds for every live object -/
+def allObjs (s : State) (P : Id → Obj → Bool) : Bool :=
+  (ids s).all fun x => match s.get x with
+    | some o => P x o
+    | none => true
+
+def plainAt (s : State) (a : Id) : Bool :=
+  match s.get a with
+  | some o => o.kind == .plain
+  | none => false
+
+/-- internal chunks (TRef, `.memlimit`) come before the plain children -/
+def orderOK (s : State) : List Id → Bool
+  | [] => true
+  | a :: rest => (!plainAt s a || rest.all (plainAt s)) && orderOK s rest
+
 /-- clauses of the structural invariant for one live object -/
 def objOK (s : State) (x : Id) (o : Obj) : Bool :=
-  -- the parent is live and lists x as child
+  -- the parent is a live plain object that lists x as child (unless x is being freed)
   (match o.parent with
     | none => true
     | some p => match s.get p with
-      | some po => po.children.contains x
+      | some po => po.kind == .plain && (po.children.contains x || o.pending)
       | none => false) &&
-  -- children are live and point back; no duplicates
+  -- children are live, point back and are not being freed; no duplicates
   o.children.all (fun c => match s.get c with
-    | some co => co.parent == some x
+    | some co => co.parent == some x && !co.pending
     | none => false) &&
-  o.children.Nodup &&
+  decide o.children.Nodup &&
   -- incoming references are live TRef chunks for x; no duplicates
   o.refs.all (fun r => match s.get r with
     | some ro => ro.kind == .ref x
     | none => false) &&
-  o.refs.Nodup &&
-  -- a TRef chunk is registered with its live target and is a leaf
+  decide o.refs.Nodup &&
+  -- a TRef chunk is registered with its live target
   (match o.kind with
     | .ref t => (match s.get t with
         | some tb => tb.refs.contains x
-        | none => false) && o.children.isEmpty && o.refs.isEmpty
-    | .limit => o.children.isEmpty && o.refs.isEmpty
-    | .plain => true) &&
-  !o.pending
+        | none => false)
+    | _ => true) &&
+  -- internal chunks are leaves without destructor
+  (o.kind == .plain || (o.children.isEmpty && o.refs.isEmpty && o.dtor == .none && !o.pending)) &&
+  (!o.pending || o.refs.isEmpty) &&
+  orderOK s o.children
 
+def nullOKb (s : State) : Bool :=
+  match s.nullCtx with
+  | none => true
+  | some n => match s.get n with
+    | some nb => nb.kind == .plain && !nb.pending && nb.parent == none && nb.refs.isEmpty
+    | none => false
+
+/-- the invariant that also holds inside a free (pending objects allowed) -/
+def wfpOK (s : State) : Bool :=
+  allObjs s (objOK s) && nullOKb s
+
+/-- the invariant between operations: `wfpOK` and no FLAG_PENDING anywhere -/
 def wfOK (s : State) : Bool :=
-  (ids s).all fun x => match s.get x with
-    | some o => objOK s x o
-    | none => true
+  wfpOK s && allObjs s fun _ o => !o.pending
 
 /-- parent chains end (no cycle): climbing from x reaches the top within `heap.length` steps -/
 def chainEnds : Nat → State → Option Id → Bool
